@@ -3118,6 +3118,12 @@ def update_working_tree(
             try:
                 verify_leading_dirs(path, [], repo_path)
             except InvalidPathError:
+                # Nothing of it is left in the work tree; it still has to
+                # leave the index.
+                try:
+                    del index[path]
+                except KeyError:
+                    pass
                 continue
 
             full_path = _tree_to_fs_path(repo_path, path, tree_encoding)
